@@ -125,12 +125,12 @@ static std::string describe_op(vf::fs_op const& op)
 static std::set<std::string> g_side_files;
 
 template <typename T, int K>
-static void scenario(report& r, int mode, bool preexisting, bool leftover = false)
+static void scenario(report& r, int mode, bool preexisting, bool leftover = false, long fail_rename = -1)
 {
     using Kt = kit<T, K>;
     using C = typename Kt::C;
     std::string const base = std::string(vf::type_name<T>()) + " kind=" + std::to_string(K) + " mode=" + std::to_string(mode) + " preexisting=" + std::to_string(preexisting)
-        + (leftover ? " leftover=1" : "");
+        + (leftover ? " leftover=1" : "") + (fail_rename >= 0 ? " failing-rename=" + std::to_string(fail_rename) : "");
     if (!r.want_prefix(base.substr(0, std::min(base.size(), r.a().replay_case.size())))) return;
     hep::callback_mode const cm = mode == 0 ? hep::callback_mode::silent_and_write_chkpt : hep::callback_mode::verbose_and_write_chkpt;
 
@@ -163,7 +163,7 @@ static void scenario(report& r, int mode, bool preexisting, bool leftover = fals
     // the logged run
     prepare_dir();
     vf::fs() = vf::fs_state();
-    vf::fs().dir = g_dir; vf::fs().active = true;
+    vf::fs().dir = g_dir; vf::fs().active = true; vf::fs().fail_rename = fail_rename;
     std::string const ret = do_run();
     vf::fs().active = false;
     auto const log = vf::fs().log;
@@ -215,7 +215,9 @@ static void scenario(report& r, int mode, bool preexisting, bool leftover = fals
             // acceptable: the checkpoint of the previous iteration (or the pre-existing file) or the new one
             std::string const& prev = golden[it];           // after `it` iterations (it = iteration being written, 0-based)
             std::string const& next = golden[it + 1];
-            bool const ok = content == prev || content == next || (i == log.size() && content == final_text);
+            bool ok = content == prev || content == next || (i == log.size() && content == final_text);
+            // with a rename that failed earlier the file legitimately still holds an older complete checkpoint
+            if (!ok && fail_rename >= 0) for (sz j = 0; j <= it + 1 && !ok; ++j) ok = content == golden[j];
             if (!ok)
             {
                 std::string what = content.empty() ? "empty" : (next.compare(0, content.size(), content) == 0 ? "a truncated copy of the new checkpoint (" + std::to_string(content.size()) + " of " + std::to_string(next.size()) + " bytes)" : "neither the previous nor the new checkpoint");
@@ -263,7 +265,7 @@ static void scenario(report& r, int mode, bool preexisting, bool leftover = fals
                 if (pid == 0)
                 {
                     vf::fs() = vf::fs_state();
-                    vf::fs().dir = g_dir; vf::fs().active = true;
+                    vf::fs().dir = g_dir; vf::fs().active = true; vf::fs().fail_rename = fail_rename;
                     vf::fs().kill_at = static_cast<long>(i); vf::fs().kill_bytes = static_cast<long>(b);
                     (void) do_run();
                     _exit(i == log.size() ? 0 : 7);    // must have been killed before getting here
@@ -307,6 +309,8 @@ static void for_type(report& r)
         // the same with partial temporary files left behind by an earlier killed run
         scenario<T, 0>(r, mode, pre != 0, true);
         scenario<T, 1>(r, mode, pre != 0, true);
+        // an environment fault before the kill: the first / second rename of the run fails
+        if (mode == 0) { scenario<T, 0>(r, mode, pre != 0, false, 0); scenario<T, 0>(r, mode, pre != 0, false, 1); scenario<T, 2>(r, mode, pre != 0, false, 1); }
         if (r.deadline_hit()) return;
     }
 }
